@@ -183,6 +183,9 @@ def encode(job):
         res["twins"][qn] = rr
         if rr == "sat":
             res["twins"][qn + "_model"] = decode(s.model())
+    xs = common.xs_run(s, queries, res["verdicts"], (rule_name, L, collecting, tuple(prefix)), ("accepts_nonmember", "rejects_member", "foreign_failure"))
+    if xs:
+        res["xsolver"] = xs
     res["t_solve"] = time.time() - t1
     res["t_total"] = time.time() - t00
     res["stats"] = {k: (round(v, 3) if isinstance(v, float) else v) for k, v in view.stats.items()}
@@ -218,6 +221,7 @@ def run(tier, only=None):
     rep = Report(PROP, tier, "PyBMC merged symbolic execution of rule.py from source + z3 QF_BV; oracle: derivative DFA")
     b = bounds(tier)
     sd = common.seed()
+    common.xs_enable(tier)
     rules = [only] if only else list(R.rules_dict.keys())
     random.Random(sd).shuffle(rules)
     jobs = []
@@ -274,6 +278,7 @@ def run(tier, only=None):
         if r.get("mode", "merged") != "merged":
             rep.extra.setdefault("pathwise_encodings", []).append({"case": tag, "paths": r["paths"]})
         rep.functions.update(r["functions"])
+        common.xs_collect(rep, tag, r)
         rep.solver_time += r["t_solve"] + r["stats"].get("t_check", 0)
         for qn, v in list(r["verdicts"].items()) + [(k, v) for k, v in r["twins"].items() if not k.endswith("_model")]:
             rep.count(v)
